@@ -120,7 +120,27 @@ def run(repo, rep):
                 bad = f"{L - 1} slices: scheduler {v}, live range {w}"
         fn = sch.enclosing_function(s)
         rep.check(bad is None, "C03-c", f"ethosu/vela/scheduler.py:{sch.qualname_of(fn)}", f"scheduler's last-buffer index `{norm(s.value)}` agrees with the live-range extraction", bad or "")
-    rep.floor("C03-c", 2)
+    # buffer k of an operator is created with double_buffer_sizes[k] (the generator DMAs slice k into buffer k % n with the slice's real size)
+    pw = sch.func("Scheduler.propose_weight_buffering")
+    created = []
+    for st in ast.walk(pw):
+        for c in calls_in(st, "self.buffer_tensor") if isinstance(st, (ast.Assign, ast.Expr)) else []:
+            if len(c.args) >= 4:
+                created.append((st.lineno, c))
+    created = sorted({id(c): (ln, c) for ln, c in created}.values(), key=lambda t: (t[1].lineno, t[1].col_offset))
+    names = [try_fold(c.args[3].right) if isinstance(c.args[3], ast.BinOp) else None for _, c in created]
+    if len(created) != 2 or names != ["_buffer", "_buffer2"]:
+        raise AnalysisError(f"propose_weight_buffering: the two weight buffers (_buffer, _buffer2) were not recognised: {names}")
+    for k, (_, c) in enumerate(created):
+        sz = norm(c.args[2])
+        rep.check(sz == f"encoded_weights.double_buffer_sizes[{k}]", "C03-c", "ethosu/vela/scheduler.py:Scheduler.propose_weight_buffering", f"weight buffer {k} ({names[k]}) is sized double_buffer_sizes[{k}]",
+                  f"sized `{sz}`: depth slices k with k % 2 == {k} are DMAed into it with their own length, which can exceed the buffer and its live range")
+    st_ = sch.func("Scheduler.propose_schedule_striping")
+    bt = [c for c in calls_in(st_, "self.buffer_tensor")]
+    en_ = [l for l in ast.walk(st_) if isinstance(l, ast.For) and "buffered_weight_tensors" in norm(l.iter) and call_name(l.iter) == "enumerate"]
+    ok = len(bt) == 1 and len(en_) == 1 and isinstance(en_[0].target, ast.Tuple) and len(bt[0].args) >= 3 and norm(bt[0].args[2]) == f"weight_tensor.double_buffer_sizes[{norm(en_[0].target.elts[0])}]"
+    rep.check(ok, "C03-c", "ethosu/vela/scheduler.py:Scheduler.propose_schedule_striping", "re-created buffer k is sized double_buffer_sizes[k]", norm(bt[0].args[2]) if bt and len(bt[0].args) >= 3 else "")
+    rep.floor("C03-c", 5)
 
     # ---------------------------------------------------------------- d
     wl = [l for l in ast.walk(f) if isinstance(l, ast.For) and norm(l.iter) == "enumerate(op_info.buffered_weight_tensors)"]
@@ -166,7 +186,24 @@ def run(repo, rep):
     sb = [c_ for c_ in calls_in(f, "rng.set_buffer_size")]
     rep.check(len(sb) == 1 and norm(sb[0].args[0]) == "cascade_info.buffers[sched_op].elements() * sched_op.ifm.dtype.size_in_bytes()", "C03-e", f"{LR}:extract_live_ranges_from_schedule",
               "rolling-buffer live range size = buffer elements x element size", "")
-    rep.floor("C03-e", 6)
+    # a consumer stripe is emitted only after its *own producer* has written the rows it reads: the rows-present box grows
+    # only on stripes of the producer's pass (the producer's generator also yields its own producers' stripes and DMAs)
+    gfn = hg.func("generate_high_level_commands_for_sched_op")
+    upd = [n_ for n_ in ast.walk(gfn) if isinstance(n_, ast.If) and any(isinstance(x, ast.Assign) and norm(x.targets[0]) == "ifm_present.end_coord" for x in n_.body)]
+    site_g = "ethosu/vela/high_level_command_stream_generator.py:generate_high_level_commands_for_sched_op"
+    if len(upd) != 1:
+        raise AnalysisError("generator: update of ifm_present.end_coord not found")
+    cj = {norm(x) for x in conjuncts(upd[0].test)}
+    tgt = [l for l in ast.walk(gfn) if isinstance(l, ast.For) and upd[0] in l.body]
+    v = norm(tgt[0].target) if tgt else "prev_cmd"
+    idents = {f"{v}.ps == producer_op.parent_ps", f"producer_op.parent_ps == {v}.ps", f"{v}.ps is producer_op.parent_ps"}
+    rep.check(bool(cj & idents), "C03-e", site_g, "rows count as present only when the yielded stripe belongs to the producer's own pass",
+              f"guard is `{norm(upd[0].test)}`: a stripe of the producer's producer (or any other pass) extends the present box, and the consumer reads rolling-buffer rows not written yet")
+    asg_ = [x for x in upd[0].body if isinstance(x, ast.Assign) and norm(x.targets[0]) == "ifm_present.end_coord"]
+    rep.check(len(asg_) == 1 and norm(asg_[0].value) == f"{v}.ofm_box.end_coord", "C03-e", site_g, "the present box ends where the producer stripe's OFM box ends", norm(asg_[0].value) if asg_ else "")
+    req = [n_ for n_ in ast.walk(gfn) if isinstance(n_, ast.If) and norm(n_.test) == "not ifm_required.is_subbox_of(ifm_present)"]
+    rep.check(len(req) == 1 and any(isinstance(x, ast.For) for x in req[0].body), "C03-e", site_g, "producer stripes are pulled until the required IFM box is inside the present box", "")
+    rep.floor("C03-e", 9)
 
     # ---------------------------------------------------------------- f
     lut = repo.mod("lut").func("optimize_high_level_cmd_stream")
